@@ -98,6 +98,7 @@ def independent_group(g):
 def build_config(args):
     name, en = args[:2]
     overrides = args[2] if len(args) > 2 else None
+    cflags = args[3] if len(args) > 3 and args[3] else CFLAGS
     d = os.path.join(rt.TREE.dir, "cfg-%s-%d" % (re.sub(r"\W", "_", name), os.getpid()))
     shutil.rmtree(d, ignore_errors=True)
     os.makedirs(d)
@@ -109,7 +110,7 @@ def build_config(args):
         for s in build.LIB_SOURCES:
             o = os.path.join(d, s[:-2] + ".o")
             cmd = "gcc -std=gnu11 -w -DHAVE_CONFIG_H -DIN_LIBCRYPT -D%s %s -I%s -I%s -c %s -o %s" % (
-                build.GUARD, CFLAGS, os.path.join(d, "gen"), lib, os.path.join(lib, s), o)
+                build.GUARD, cflags, os.path.join(d, "gen"), lib, os.path.join(lib, s), o)
             p = subprocess.run(cmd, shell=True, stdout=subprocess.PIPE, stderr=subprocess.STDOUT, text=True)
             if p.returncode != 0:
                 return name, en, None, "compile %s: %s" % (s, p.stdout[-600:]), None
@@ -117,7 +118,7 @@ def build_config(args):
         exe = os.path.join(d, "vw")
         w = " ".join("-Wl,--wrap=" + x for x in build.WRAPS)
         cmd = "gcc -std=gnu11 -D_GNU_SOURCE %s -I%s -I%s %s %s -o %s %s -lpthread -ldl" % (
-            CFLAGS, os.path.join(d, "gen"), build.HARNESS, os.path.join(build.HARNESS, "vw.c"), " ".join(objs), exe, w)
+            cflags, os.path.join(d, "gen"), build.HARNESS, os.path.join(build.HARNESS, "vw.c"), " ".join(objs), exe, w)
         p = subprocess.run(cmd, shell=True, stdout=subprocess.PIPE, stderr=subprocess.STDOUT, text=True)
         if p.returncode != 0:
             return name, en, None, "link: %s" % p.stdout[-800:], None
